@@ -374,7 +374,15 @@ func (ctx *Context) LoadNameWithDetail(name string, isRaw bool, useHook bool, de
 	// 先local再global
 	curCtx := ctx
 	for {
+		if curCtx != ctx {
+			// 在外层作用域里求值(如 computed)消耗的算力，要记在当前正在执行的虚拟机上；
+			// 否则它只记在外层，而外层的计数会在本虚拟机返回时被覆盖，这部分算力就丢了
+			curCtx.NumOpCount = ctx.NumOpCount
+		}
 		ret := curCtx.LoadNameLocalWithDetail(name, isRaw, detail)
+		if curCtx != ctx {
+			ctx.NumOpCount = curCtx.NumOpCount
+		}
 
 		if curCtx.Error != nil {
 			ctx.Error = curCtx.Error
